@@ -313,6 +313,27 @@ register(
 )
 
 
+def _c12_stage(ctx):
+    import c12
+
+    return c12.stage(ctx)
+
+
+_c12_stage.__name__ = "c12"
+
+register(
+    "C12",
+    [_c12_stage],
+    "compiled generated programs (every modern dialect, optimised and not, with and without their symbol table, source lines supplied) and random raw CLVM over the full operator set with argument trees: each is stepped to the end with CldbRun (lock-step with the machine state), "
+    "the same program re-read from hex (hex_to_modern_sexp) and through cldb_hierarchy (the -t view). Oracle per run: ends; Final equals clvmr's value / a Failure or Throw entry exactly when clvmr fails; Row numbers consecutive from 0; "
+    "every row carrying Operator+Arguments+Value is re-evaluated with clvmr (that operator applied to those arguments must give that value); hex and source rows identical modulo location keys; "
+    "for a sample the REAL `cldb -x` and `cldb -x -t` binaries are run and their YAML must equal the judged library rows/tree. Distinct non-trivial = distinct (program, arguments) whose trace had >= 3 rows and passed every clause",
+    needs=("bins",),
+    min_nontrivial=100,
+    assumptions=["rows of the apply operator carry Env/Env-Args instead of Arguments and are outside the per-row clause as stated", "row texts are parsed back with the repository's reader; rows whose texts do not parse to a proper argument list are counted as not checkable"],
+)
+
+
 register(
     "C05",
     [vh_stage("c05", 16, 16)],
